@@ -93,9 +93,13 @@ def write_replay(pid, key, msg, payload):
 def replay_in_subprocess(pid, rel):
     """Re-execute a replay file in a fresh process; return (rc, keys)."""
     env = dict(os.environ)
-    p = subprocess.run(
-        [sys.executable, '-m', 'mc.main', pid, '--replay', rel, '--quiet'],
-        cwd=ROOT, env=env, capture_output=True, text=True, timeout=600)
+    try:
+        p = subprocess.run(
+            [sys.executable, '-m', 'mc.main', pid, '--replay', rel,
+             '--quiet'],
+            cwd=ROOT, env=env, capture_output=True, text=True, timeout=120)
+    except subprocess.TimeoutExpired:
+        return 2, ['<replay-timed-out>'], 'replay timed out'
     keys = sorted(l.split('=', 1)[1] for l in p.stdout.splitlines()
                   if l.startswith('REPLAY-KEY='))
     return p.returncode, keys, p.stdout + p.stderr
